@@ -144,12 +144,19 @@ def interpreter_view(mod, spec):
         # inline kwargs.pop/get hands the value on as another argument of the forwarding call)
         seen = [(lv, k) for lv, vals in log for k, val in vals.items() if type(val) is int and val == gen.sentinel(n)]
         levels = [lv for lv, k in seen if k == n]
-        renamed[n] = [[lv, k] for lv, k in seen if k != n]
+        handed = [[lv, k] for lv, k in seen if k != n]
         inline = inline_popget_level(spec, n)
-        if inline is not None and any(lv == f"L{inline}" for lv, _ in log):
-            # the level with the inline pop/get was reached: it binds the name (its _log line runs before the call
-            # that contains the expression, so the value itself cannot show up there)
+        if inline is not None and mod.SEL.get(inline, 1) == 1 and any(lv == f"L{inline}" for lv, _ in log):
+            # the level with the inline pop/get was reached and its forwarding call is the live one: it binds the name
+            # (its _log line runs before the call that contains the expression, so the value cannot show up there).
+            # After an inline POP the name is gone from **kwargs: whatever a lower level sees of the value was handed
+            # to it as the other argument of that call, it does not bind the name.
+            if gen.op_popget(spec["levels"][inline][2])[0] == "P":
+                below = [lv for lv in levels if lv[:1] == "L" and lv[1:].isdigit() and int(lv[1:]) > inline]
+                handed += [[lv, n] for lv in below]
+                levels = [lv for lv in levels if lv not in below]
             levels = [f"L{inline}"] + levels
+        renamed[n] = handed
         bound[n] = levels
         cands = []
         for lv in levels:
@@ -317,6 +324,8 @@ def name_class(spec, name):
     r = roles(spec, name)
     if any(link == "dict_literal" and gen.op_hard(op) == name for link, _, op in spec["levels"]):
         return "key-given-in-dict(key=..,**kwargs)"
+    if any(gen.op_hard(op) == name and (gen.op_popget(op) or ("", ""))[1] == name for _, _, op in spec["levels"]):
+        return "popped-and-given-again-at-the-same-call"
     if r & {"G", "J"}:
         return "read-by-kwargs.get"
     if not r:
@@ -387,9 +396,14 @@ def names_bound_below_branch(spec, view):
         return set()
     i = taken[-1]
     hard = gen.op_hard(spec["levels"][i][2])
+    pg = gen.op_popget(spec["levels"][i][2])
+    if pg and pg[2] and pg[0] == "P":
+        hard = (hard, pg[1])  # popped inline at the branching call: below it the value is an argument, not from **kwargs
+    else:
+        hard = (hard,)
     below = {m for m in view["accepted"] for lv in view["bound"][m] if lv[:1] == "L" and int(lv[1:]) > i}
     # kwargs.pop(name) without default is invisible to the resolver by design (undocumented form)
-    return {m for m in below if hard != m and not popped_without_default(spec, m)}
+    return {m for m in below if m not in hard and not popped_without_default(spec, m)}
 
 
 def compare(spec, views, params, failed):
@@ -687,6 +701,13 @@ def _at_most_one_branching(root, links):
     return "inst_method" not in links and links.count("ncc") <= 1
 
 
+def _quick_depth3(root, links):
+    """At most one runtime branch; the placement of the live branch of a constant conditional (elif-not / else) is
+    varied at the root level only - below the root a constant conditional is always the `if` form (which branch of
+    an if/elif/else is live is decided inside one level; all placements at every level are in depth 2)."""
+    return _at_most_one_branching(root, links) and not any(l in ("cc_elifnot", "cc_else") for l in links[1:])
+
+
 def families(tier):
     """The stated program space: a list of families, each enumerated completely.
 
@@ -696,7 +717,7 @@ def families(tier):
         return [
             dict(name="depth1", depths=[1], size="full", checks="full", same=True),
             dict(name="depth2", depths=[2], size="mid", checks="full", same=True),
-            dict(name="depth3", depths=[3], size="small", checks="resolve", same=False, link_filter=_at_most_one_branching, aux=False),
+            dict(name="depth3", depths=[3], size="small", checks="resolve", same=False, link_filter=_quick_depth3, aux=False),
             dict(name="hierarchy4", depths=[4], size="tiny4", checks="resolve", same=False, link_filter=_pure_hierarchy, rich=True),
             dict(name="hierarchy2+blank", depths=[2], size="small+", checks="full", same=True, link_filter=_pure_hierarchy, blank=True),
             dict(name="hierarchy3+blank", depths=[3], size="tiny4", checks="resolve", same=False, link_filter=_pure_hierarchy, blank=True),
@@ -708,8 +729,8 @@ def families(tier):
         dict(name="depth4", depths=[4], size="tiny", checks="resolve", same=False, link_filter=_no_branching),
         dict(name="hierarchy4", depths=[4], size="small", checks="full", same=True, link_filter=_pure_hierarchy, rich=True),
         dict(name="hierarchy5", depths=[5], size="tiny4", checks="resolve", same=False, link_filter=_pure_hierarchy, rich=True),
-        dict(name="hierarchy2+blank", depths=[2], size="full", checks="full", same=True, link_filter=_pure_hierarchy, blank=True),
-        dict(name="hierarchy3+blank", depths=[3], size="small+", checks="full", same=True, link_filter=_pure_hierarchy, blank=True),
+        dict(name="hierarchy2+blank", depths=[2], size="mid", checks="full", same=True, link_filter=_pure_hierarchy, blank=True),
+        dict(name="hierarchy3+blank", depths=[3], size="small+", checks="resolve", same=False, link_filter=_pure_hierarchy, blank=True),
         dict(name="hierarchy4+blank", depths=[4], size="tiny", checks="resolve", same=False, link_filter=_pure_hierarchy, blank=True),
     ]
 
@@ -750,6 +771,8 @@ def explore(ctx):
     if batch:
         batches.append(batch)
     valid = invalid = calls = resolves = nonbox = crashed = parsed = swallow = cond = branching = 0
+    inline = after = blank = 0
+    blank_positions = set()
     answers = set()
     shapes_valid = set()
     links_valid = set()
@@ -775,6 +798,12 @@ def explore(ctx):
             swallow += bool(res.get("swallows"))
             cond += bool(res.get("conditional"))
             branching += res.get("branches", 1) > 1
+            inline += any(gen.op_inline(l[2]) for l in spec["levels"])
+            after += any(l[2][:1] == "h" for l in spec["levels"])
+            if isinstance(spec["layout"], dict):
+                blank += 1
+                if res["offered"]:
+                    blank_positions.add((len(spec["levels"]), spec["layout"]["blank"]))
             shapes_valid.add(gen.describe(spec))
             links_valid.update(l[0] for l in spec["levels"])
             if res["offered"]:
@@ -804,6 +833,9 @@ def explore(ctx):
     ctx.count("programs_with_swallowing_sink", swallow)
     ctx.count("programs_with_conditional_parameters", cond)
     ctx.count("programs_with_runtime_branches", branching)
+    ctx.count("programs_with_pop_or_get_inline_in_the_forwarding_call", inline)
+    ctx.count("programs_with_keyword_hard_coded_after_the_unpacking", after)
+    ctx.count("programs_with_a_class_without_init_inside_the_hierarchy", blank)
     ctx.cover(
         evaluations=n_programs,
         states=valid,
@@ -835,4 +867,7 @@ def explore(ctx):
     ctx.require(len(answers) > 200, "more than 200 distinct non-empty resolver answers")
     ctx.require(swallow > 0 and cond > 0 and branching > 0, "programs with swallowing sinks, conditional parameters and runtime branches occur")
     ctx.require(parsed > 500, "more than 500 programs also checked end to end through a parser")
+    ctx.require(inline > 100 and after > 100, "valid programs with an inline kwargs.pop/get and with a keyword hard-coded after **kwargs occur")
+    want_positions = {(d, j) for fam in fams if fam.get("blank") for d in fam["depths"] for j in range(d + 1)}
+    ctx.require(blank > 100 and blank_positions == want_positions, "a class without __init__ occurs at every position of the hierarchies (with a non-empty answer)")
     ctx.require(links_valid == set(gen.TARGET) | set(gen.TERMINALS), "every link pattern occurs in a valid program")
